@@ -85,6 +85,12 @@ def _get_sizing(vars, sizing, method, optimal_size=None):
 
         return signed, n_word, n_int, n_frac
 
+def _needs_python_int(x, y, n_frac):
+        # the aligned sum/difference needs one bit more than the wider aligned operand; 64-bit integer types hold
+        # 63 bits exactly, and a signed with an unsigned operand are combined by numpy in float64 (53 bits)
+        n_bits = max(x.n_word + max(n_frac - x.n_frac, 0), y.n_word + max(n_frac - y.n_frac, 0)) + 1
+        return n_frac >= _n_word_max or n_bits >= 63 or (x.signed != y.signed and n_bits >= 53)
+
 def _function_over_one_var(repr_func, raw_func, x, out=None, out_like=None, sizing='optimal', method='raw', optimal_size=None, **kwargs):
     if not isinstance(x, Fxp):
         x = Fxp(x)
@@ -315,7 +321,7 @@ def add(x, y, out=None, out_like=None, sizing='optimal', method='raw', **kwargs)
     """
     """
     def _add_raw(x, y, n_frac):
-        precision_cast = (lambda m: np.array(m, dtype=object)) if n_frac >= _n_word_max else (lambda m: m)
+        precision_cast = (lambda m: np.array(m, dtype=object)) if _needs_python_int(x, y, n_frac) else (lambda m: m)
         return x.val * precision_cast(2**(n_frac - x.n_frac)) + y.val * precision_cast(2**(n_frac - y.n_frac))
 
     if not isinstance(x, Fxp):
@@ -336,7 +342,7 @@ def sub(x, y, out=None, out_like=None, sizing='optimal', method='raw', **kwargs)
     """
     """
     def _sub_raw(x, y, n_frac):
-        precision_cast = (lambda m: np.array(m, dtype=object)) if n_frac >= _n_word_max else (lambda m: m)
+        precision_cast = (lambda m: np.array(m, dtype=object)) if _needs_python_int(x, y, n_frac) else (lambda m: m)
         return x.val * precision_cast(2**(n_frac - x.n_frac)) - y.val * precision_cast(2**(n_frac - y.n_frac))
 
     if not isinstance(x, Fxp):
@@ -357,8 +363,10 @@ def mul(x, y, out=None, out_like=None, sizing='optimal', method='raw', **kwargs)
     """
     """
     def _mul_raw(x, y, n_frac):
-        precision_cast = (lambda m: np.array(m, dtype=object)) if n_frac >= _n_word_max else (lambda m: m)
-        raw_cast = (lambda m: np.array(m, dtype=object)) if (x.n_word + y.n_word) >= _n_word_max else (lambda m: m)
+        n_bits = x.n_word + y.n_word + max(n_frac - x.n_frac - y.n_frac, 0)
+        python_int = n_frac >= _n_word_max or n_bits >= 63 or (x.signed != y.signed and n_bits >= 53)
+        precision_cast = (lambda m: np.array(m, dtype=object)) if python_int else (lambda m: m)
+        raw_cast = (lambda m: np.array(m, dtype=object)) if python_int else (lambda m: m)
         return raw_cast(x.val) * raw_cast(y.val) * precision_cast(2**(n_frac - x.n_frac - y.n_frac))
 
     if not isinstance(x, Fxp):
